@@ -194,7 +194,17 @@ fn run_block(ctx: &mut Ctx, cfgs: &[Cfg], codes: &[Code], vel_mode: bool) {
         // compare only the quantity under test; 'no information' may legitimately differ between first (blank) and update (previous)
         let proj: Vec<Option<(Option<u32>, Option<u32>, Option<i32>)>> = obs.iter().map(|o| o.map(|(g, t, v)| if vel_mode { (g, t, None) } else { (None, None, v) })).collect();
         let noinfo = if vel_mode { c.vew == 0 || c.vns == 0 } else { c.vr == 0 };
-        if !noinfo && proj.windows(2).any(|w| w[0] != w[1]) {
+        // observations are ordered (cfg, [first, update]): for a 'no information' code the first-frame
+        // and the n-th-frame result may differ (blank vs previous value), but each must be the same
+        // under every option set
+        let disagree = if noinfo {
+            let firsts: Vec<_> = proj.iter().step_by(2).collect();
+            let updates: Vec<_> = proj.iter().skip(1).step_by(2).collect();
+            firsts.windows(2).any(|w| w[0] != w[1]) || updates.windows(2).any(|w| w[0] != w[1])
+        } else {
+            proj.windows(2).any(|w| w[0] != w[1])
+        };
+        if disagree {
             ctx.violation(
                 "C09/paths-disagree",
                 &format!("{c:?}"),
